@@ -153,6 +153,25 @@ class LoopSpec:
         self.unroll = unroll
 
 
+def and_mask_formula(x, m):
+    """x & m for a constant mask m >= 0 and EVERY integer x (negative too), in integer arithmetic: Python's &
+    acts on the infinite two's-complement form, whose bit k is (x // 2^k) % 2 with floor division, so
+    x & m = sum over the mask's bit runs [lo, hi) of ((x // 2^lo) % 2^(hi-lo)) * 2^lo.
+    Dual use (symbolic or plain ints); cross-checked against CPython's & on plain ints by the static check
+    `and-mask-formula-agrees-with-cpython` of contracts/C05_input.py."""
+    total = 0
+    k = 0
+    while (1 << k) <= m:
+        if m >> k & 1:
+            lo = k
+            while m >> k & 1:
+                k += 1
+            total = total + ((x // (1 << lo)) % (1 << (k - lo))) * (1 << lo)
+        else:
+            k += 1
+    return total
+
+
 class Interp:
     """One interpreter per verification task."""
 
@@ -619,12 +638,18 @@ class Interp:
             st.oblige(name, r, "invariant")
 
     def assume_inv(self, st, spec, view):
-        r = spec.invariant(view)
-        if inspect.isgenerator(r):
-            for _label, f in r:
-                st.assume(f if isinstance(f, (SBool, bool)) else mk_bool(V._zb(f)))
-        else:
-            st.assume(r if isinstance(r, (SBool, bool)) else mk_bool(V._zb(r)))
+        # ghost flag: the invariant is being evaluated as an assumption (a contract helper may then produce a
+        # genuine quantifier where, as a goal, it would produce a Skolem instance)
+        st.ghost["inv_assuming"] = st.ghost.get("inv_assuming", 0) + 1
+        try:
+            r = spec.invariant(view)
+            if inspect.isgenerator(r):
+                for _label, f in r:
+                    st.assume(f if isinstance(f, (SBool, bool)) else mk_bool(V._zb(f)))
+            else:
+                st.assume(r if isinstance(r, (SBool, bool)) else mk_bool(V._zb(r)))
+        finally:
+            st.ghost["inv_assuming"] -= 1
 
     def loop_targets(self, s):
         """Names / self-attributes / mutated containers assigned anywhere in the loop."""
@@ -712,7 +737,7 @@ class Interp:
         spec = self.loop_spec(fr, s)
         n0 = Q.seq_len(seq)
         if spec is None or spec.invariant is None:
-            if not isinstance(n0, int) and not isinstance(seq, LRef):
+            if not isinstance(n0, int) and not isinstance(seq, LRef) and not getattr(self.task, "unroll_symbolic", False):
                 raise Unsupported(f"for loop over a sequence of symbolic length needs an invariant ({ast.unparse(s.iter)})")
             i = 0
             while True:
@@ -942,6 +967,13 @@ class Interp:
 
     def binop(self, st, op, a, b):
         a, b = st.force(a), st.force(b)
+        h = getattr(getattr(self.task, "c", None), "binop", None)
+        if h is not None:
+            # contract-file hook for operand kinds the core does not model (e.g. str + chr(k) on a modelled string);
+            # NotImplemented falls through to the core rules
+            r = h(self, st, op, a, b)
+            if r is not NotImplemented:
+                return r
         if not isinstance(a, Sym) and not isinstance(b, Sym):
             try:
                 return self._concrete_binop(op, a, b)
@@ -980,6 +1012,13 @@ class Interp:
                 for _ in range(b):
                     r = r * a
                 return r
+        if isinstance(op, ast.Add) and isinstance(a, SOpaque) and isinstance(b, SOpaque) and a.kind == "Char" and b.kind == "Char":
+            # chr(x) + chr(y): the two-character str made of exactly these characters
+            from .text import SText
+
+            t = SText("str", 2, st.fresh_name("pair"))
+            st.assume(z3.And(t.f(z3.IntVal(0)) == a.e, t.f(z3.IntVal(1)) == b.e))
+            return t
         raise Unsupported(f"binary op {type(op).__name__} on {type(a).__name__}, {type(b).__name__}")
 
     def bitop(self, st, t, a, b):
@@ -994,18 +1033,7 @@ class Interp:
         if t is ast.BitAnd and (isinstance(a, int) or isinstance(b, int)):
             x, m = (b, a) if isinstance(a, int) else (a, b)
             if m >= 0:
-                self._require_nonneg(st, x, "&")
-                total = 0
-                k = 0
-                while (1 << k) <= m:
-                    if m >> k & 1:
-                        lo = k
-                        while m >> k & 1:
-                            k += 1
-                        total = total + ((x // (1 << lo)) % (1 << (k - lo))) * (1 << lo)
-                    else:
-                        k += 1
-                return total
+                return and_mask_formula(x, m)
         if t is ast.BitOr:
             for k in (6, 12, 18, 8, 16, 4, 2, 1, 24, 7, 9, 10, 32):
                 for x, y in ((a, b), (b, a)):
@@ -1127,6 +1155,15 @@ class Interp:
             if a is b:
                 return True
             raise Unsupported("equality of symbolic sequences")
+        for x, y in ((a, b), (b, a)):
+            # an opaque individual compared with a plain constant: the protocol may answer (`eq_const`), e.g. an
+            # abstract key event that may or may not be the string "esc"; without the hook: unequal, as before
+            if isinstance(x, SOpaque) and not isinstance(y, Sym):
+                from .api import PROTOCOLS
+
+                p = PROTOCOLS.get(x.kind)
+                if p is not None and hasattr(p, "eq_const"):
+                    return p.eq_const(st, x, y)
         if isinstance(a, Sym):
             r = a == b
         elif isinstance(b, Sym):
@@ -1237,6 +1274,8 @@ class Interp:
             if name == "with_traceback":
                 return Method(obj, "with_traceback")
             raise Unsupported(f"exception attribute {name}")
+        if isinstance(obj, SInt) and name == "to_bytes":
+            return Method(obj, name)  # int.to_bytes(1, order): see call_method
         if isinstance(obj, Sym):
             raise Unsupported(f"attribute {name} of {type(obj).__name__}")
         if isinstance(obj, tuple) and name in ("index", "count"):
